@@ -217,7 +217,15 @@ def h_splitter(cfg):
                 sp.outs[i] = recs[i]
     size = sym_int('size', 1)
     pkt = mk_packet(Packet, sym_int('t', 0), size, sym_int('pid', 0), flow_id=sym_int('flow', 0, 3))
+    # header fields a packet acquires on its way are part of it too
+    pkt.ack = sym_int('ack', 0)
+    pkt.color = 'yellow'
+    pkt.dst = 'there'
+    pkt.priorities[3] = 5
+    pkt.perhop_time['p1'] = pkt.time
+    pkt.current_time = pkt.time
     snap = snapshot(pkt)
+    full = dict(vars(pkt))
     try:
         sp.put(pkt)
     except Exception as ex:  # noqa
@@ -238,6 +246,15 @@ def h_splitter(cfg):
     check('c18.splitter-distinct-objects', len({id(o) for o in objs}) == len(objs))
     for c in copies:
         check_unchanged('c18.splitter-copy', c, snap)
+        check('c18.splitter-copy-complete', set(vars(c)) == set(full), sorted(set(full) ^ set(vars(c))))
+        for k, v in full.items():
+            cv = getattr(c, k, None)
+            if k in ('ack', 'current_time', 'realtime'):
+                check('c18.splitter-copy-complete', eq(cv, v), k)
+            elif k in ('color', 'dst'):
+                check('c18.splitter-copy-complete', cv == v, k)
+            elif k in ('priorities', 'perhop_time'):
+                check('c18.splitter-copy-complete', isinstance(cv, dict) and set(cv) == set(v), k)
     # independent header fields: change every copy, the original and the other copies stay
     for j, c in enumerate(copies):
         c.flow_id = 1000 + j
